@@ -160,6 +160,22 @@ impl Real {
         let t: Vec<&str> = line.split_whitespace().collect();
         let p = |s: &str| dec(s);
         match t.as_slice() {
+            ["create", v, mb, be] => {
+                // a history that names the way its underlying file splits transfers (results and bytes must
+                // not depend on it); a variant run that chose a backend of its own keeps it
+                let named = match *be {
+                    "short" => Some(BackendKind::Chunky(Chunking::RandomShort)),
+                    "intr" => Some(BackendKind::Chunky(Chunking::Interrupted)),
+                    _ => None,
+                };
+                let keep = self.backend.clone();
+                if let (Some(b), BackendKind::Mem) = (named, &self.backend) {
+                    self.backend = b;
+                }
+                let r = if *mb == "-" { self.exec_inner(&format!("create {}", v)) } else { self.exec_inner(&format!("create {} {}", v, mb)) };
+                self.backend = keep;
+                r
+            }
             ["create", v, mb] => {
                 // a history that names its stream buffer size (a variant run that set one keeps its own)
                 if self.maxbuf.is_none() || self.maxbuf_line {
